@@ -9,7 +9,7 @@
    Part 6  rejection, ConstExpr purity
    Part 7  known findings: decidable predicates, refutations by vm_compute, non-vacuity *)
 From Coq Require Import ZArith Bool List String Floats Lia.
-Require Import X.Base.Num X.Base.NumProofs X.Base.Value X.Syn.Ast X.gen.GenHelpers X.Sem.Prim X.Sem.Sem X.Opt.Optimizer.
+Require Import X.Base.Num X.Base.NumProofs X.Base.Value X.Syn.Ast X.gen.GenHelpers X.Sem.Prim X.Sem.Sem X.Sem.MatchesFacts X.Opt.Optimizer.
 Import ListNotations.
 Open Scope Z_scope.
 Open Scope list_scope.
@@ -354,18 +354,12 @@ Proof. destruct op; reflexivity. Qed.
 
 Lemma ev_matches ctx a re l r s :
   ev ctx (EMatches a re l r) s =
-  match re with
-  | Some p =>
-      rbind (ev ctx l s) (fun va s1 =>
-      lift (aloc a) s1 (as_str va) (fun x =>
-      match re_match fe p x with Some b => Done (VBool b) s1 | None => Stop ERegexp (aloc a) s1 end))
-  | None =>
-      rbind (ev ctx l s) (fun va s1 =>
-      rbind (ev ctx r s1) (fun vb s2 =>
-      lift (aloc a) s2 (as_str vb) (fun p => lift (aloc a) s2 (as_str va) (fun x =>
-      match re_match fe p x with Some b => Done (VBool b) s2 | None => Stop ERegexp (aloc a) s2 end))))
-  end.
-Proof. destruct re; reflexivity. Qed.
+  (* the pre-compiled pattern is only a shortcut for the value of the right operand (Sem/MatchesFacts.v) *)
+  rbind (ev ctx l s) (fun va s1 =>
+  rbind (ev ctx r s1) (fun vb s2 =>
+  lift (aloc a) s2 (as_str vb) (fun p => lift (aloc a) s2 (as_str va) (fun x =>
+  match re_match fe p x with Some b => Done (VBool b) s2 | None => Stop ERegexp (aloc a) s2 end)))).
+Proof. exact (eval_matches_dyn _ _ _ ctx a re l r s). Qed.
 
 Lemma ev_property ctx a x name ns s :
   ev ctx (EProperty a x name ns) s =
@@ -1186,8 +1180,7 @@ Proof.
     + sim_step; [sim_step|]. sim_step; [sim_step|].
       apply bin_strict_sim; try assumption;
         match goal with E : esim ?a ?b |- kind_of ?a = kind_of ?b => exact (es_kind _ _ (proj1 E)) end.
-  - (* matches *) rewrite !ev_matches. destruct re.
-    + sim_step; [sim_step|]. sim_step. destruct (re_match fe _ lv); repeat sim_step.
+  - (* matches *) rewrite !ev_matches.
     + sim_step; [sim_step|]. sim_step; [sim_step|]. sim_step. sim_step.
       destruct (re_match fe _ _); repeat sim_step.
   - (* property *) rewrite !ev_property. repeat sim_step.
